@@ -197,7 +197,7 @@ def ValsOk (fs : Facts) (act : SAct) (vals : List (Str × Val)) : Prop :=
 def valEls (vals : List (Str × Val)) : List Xml := vals.map fun p => leaf (plain p.1) (out p.2)
 
 theorem responseKids_ok {fs : Facts} {act : SAct} {vals : List (Str × Val)} (h : ValsOk fs act vals) :
-    responseKids fs act vals = some (valEls vals) := by
+    responseKids fs act vals = .ok (valEls vals) := by
   induction vals with
   | nil => rfl
   | cons p r ih =>
